@@ -25,7 +25,14 @@ EXPLANATION = (
     "subclasses of their root (msgspec does not decode subclasses); R12.2 in "
     "every class defining __eq__/__hash__ each hashed projection of self is a "
     "function of a compared projection, and a hash helper that walks a set is "
-    "order-free.  __eq__ is read path by path (path condition + the conjuncts "
+    "order-free; the pair is the one the class's instances actually use: "
+    "__eq__/__hash__ inherited from a base class or mixin defined in the same "
+    "file are resolved through the local C3 linearisation (nothing is taken "
+    "from behind a base that is not defined in the file; a class that defines "
+    "__eq__ without __hash__ is unhashable, as in Python), so moving the pair "
+    "into a shared base changes nothing and overriding one half in a "
+    "subclass is judged against the inherited other half.  __eq__ is read "
+    "path by path (path condition + the conjuncts "
     "of the returned expression): a path with a same-class test "
     "(isinstance(other, type(self) | self.__class__ | the class), "
     "type/__class__ equality) contributes its `E(self) == E(other)` "
@@ -43,9 +50,25 @@ EXPLANATION = (
     "projections; R12.3 the AST handed to SerializableAst(...) has passed "
     "ClearClassPointers, CanonicalOrderingVisitor (nothing re-ordering after "
     "it) and ClearLookupCache on every path, and ClearLookupCache clears the "
-    "cache of every class that has one; R12.4 the encoder is deterministic, "
-    "the gzip header constant, the dependency lists sorted; R12.5 each "
-    "decoder is typed with the structure its loader promises and _Load turns "
+    "cache of every class that has one.  The pipeline is a property of what "
+    "SerializeAst does, not of where the statements stand: calls of "
+    "module-local step functions are inlined first (rules/_util_c12c17c18: "
+    "the textbook inlining transformation, applied only when it preserves "
+    "behaviour - tail-position returns, renamed locals, arguments bound in "
+    "call order), plain copies `x = y` are followed, ClearClassPointers "
+    "counts on any tree of the .Visit lineage of the exported object (the "
+    "ClassType nodes are shared), ClearLookupCache only on the exported "
+    "object itself; a helper that receives the tree and cannot be inlined is "
+    "an analysis error, never a verdict; R12.4 the encoder is deterministic, "
+    "the gzip header constant, the dependency lists sorted (what reaches the "
+    "sink Encode/Save/SerializableAst is followed through local definitions, "
+    "inlined temporaries and inlined helpers: `Encode(SerializeAst(..))` and "
+    "`out = SerializeAst(..); Encode(out)` are the same, a rebinding of the "
+    "temporary on some path is not); R12.5 each decoder is typed with the "
+    "structure its loader promises and the file loader - found by its role: "
+    "the module-level function whose call LoadAst and LoadBuiltins return "
+    "and which receives a module-level msgspec Decoder; its name and "
+    "parameter names are free, the constructs keep the name `_Load` - turns "
     "I/O, gzip and msgspec failures into LoadPickleError; R12.6 at every "
     "pytd.Literal(...) construction site of the package (non-test) the "
     "expression stored in `value` is never *definitely* of a type outside "
@@ -89,6 +112,12 @@ ASSUMPTIONS = [
     "pyi/definitions.py, which is replaced before the unit is used)",
     "reference exception hierarchy: gzip.BadGzipFile < OSError; "
     "msgspec.ValidationError < msgspec.DecodeError < msgspec.MsgspecError",
+    "R12.2: a method inherited from a base class of the same file is judged "
+    "for instances whose class is the inheriting class; bases that are not "
+    "defined in the file (msgspec.Struct) contribute only what the schema "
+    "reader models (generated eq/hash)",
+    "R12.3/R12.4 inlining: attribute reads and subscripts have no side "
+    "effects; a module-level helper name denotes the def of that name",
 ]
 
 VISITORS = "pytype/pytd/visitors.py"
@@ -774,9 +803,28 @@ def r12_3(ctx):
             and "_name2item" in sch.fields(c)]
   if not cached:
     raise AnalysisError("no Node class with a _name2item cache found")
-  meths = smod.methods("ClearLookupCache")
+  smod.cls("ClearLookupCache")
+
+  def visitor_method(mod_, cls_, names):
+    # own or inherited from a base class / mixin of the same file
+    classes = {k: v for k, v in mod_.classes.items() if v in mod_.tree.body}
+    opaque = None
+    for b in U.local_mro(classes, cls_):
+      if b.startswith("?"):
+        opaque = opaque or b[1:]
+        continue
+      own = mod_.methods(b)
+      for nm in names:
+        if nm in own:
+          if opaque is not None:
+            raise AnalysisError(
+                f"{cls_}.{nm} is defined in {b}, behind the base {opaque} which is "
+                "not defined in the file and may define it as well")
+          return own[nm]
+    return None
+
   for c in cached:
-    m = meths.get(f"Leave{c}") or meths.get(f"Enter{c}") or meths.get(f"Visit{c}")
+    m = visitor_method(smod, "ClearLookupCache", (f"Leave{c}", f"Enter{c}", f"Visit{c}"))
     ok = False
     if m is not None and len(m.args.args) == 2:
       p = m.args.args[1].arg
@@ -787,7 +835,8 @@ def r12_3(ctx):
               "does not clear it", {"method": m.name if m is not None else None})
   # -- ClearClassPointers resets ClassType.cls
   vmod = get_module(ctx, VISITORS)
-  m = vmod.methods("ClearClassPointers").get("EnterClassType")
+  vmod.cls("ClearClassPointers")
+  m = visitor_method(vmod, "ClearClassPointers", ("EnterClassType",))
   ok = False
   if m is not None and len(m.args.args) == 2:
     p = m.args.args[1].arg
@@ -1578,6 +1627,17 @@ VARIANTS = [
              "  tree = tree.Visit(visitors.CanonicalOrderingVisitor())\n"
              "  tree.Visit(ClearLookupCache())\n"
              "  return tree\n"))]},
+    {"name": "cleanup-helper-outside-the-inliner", "rule": "R12.3", "expect": "error",
+     "edits": [
+         (SERIALIZE, _CLEAN_TAIL, "  ast = _CleanForExport(ast)\n"),
+         (SERIALIZE, _SER_DEF, _clean_helper(
+             "  try:\n"
+             "    tree.Visit(visitors.ClearClassPointers())\n"
+             "    tree = tree.Visit(visitors.CanonicalOrderingVisitor())\n"
+             "    tree.Visit(ClearLookupCache())\n"
+             "    return tree\n"
+             "  finally:\n"
+             "    pass\n"))]},
     {"name": "skip-ClearClassPointers", "rule": "R12.3", "file": SERIALIZE, "expect": "fire",
      "old": "  ast.Visit(visitors.ClearClassPointers())\n  ast = ast.Visit(visitors.CanonicalOrderingVisitor())",
      "new": "  ast = ast.Visit(visitors.CanonicalOrderingVisitor())"},
@@ -1603,6 +1663,24 @@ VARIANTS = [
     {"name": "clear-pointers-visitor-noop", "rule": "R12.3", "file": VISITORS, "expect": "fire",
      "old": "  def EnterClassType(self, node):\n    node.cls = None\n",
      "new": "  def EnterClassType(self, node):\n    del node\n"},
+    {"name": "twin-cache-clearing-methods-in-a-mixin", "rule": "R12.3", "expect": "silent",
+     "edits": [
+         (SERIALIZE, "class ClearLookupCache(visitors.Visitor):",
+          "class _CacheClearingMixin:\n\n"
+          "  def LeaveClass(self, node):\n"
+          "    node._name2item.clear()  # pylint: disable=protected-access\n\n\n"
+          "class ClearLookupCache(_CacheClearingMixin, visitors.Visitor):"),
+         (SERIALIZE, "  def LeaveClass(self, node):\n    node._name2item.clear()  # pylint: disable=protected-access\n\n"
+                     "  def LeaveTypeDeclUnit", "  def LeaveTypeDeclUnit")]},
+    {"name": "cache-clearing-mixin-behind-the-visitor-base", "rule": "R12.3", "expect": "error",
+     "edits": [
+         (SERIALIZE, "class ClearLookupCache(visitors.Visitor):",
+          "class _CacheClearingMixin:\n\n"
+          "  def LeaveClass(self, node):\n"
+          "    node._name2item.clear()  # pylint: disable=protected-access\n\n\n"
+          "class ClearLookupCache(visitors.Visitor, _CacheClearingMixin):"),
+         (SERIALIZE, "  def LeaveClass(self, node):\n    node._name2item.clear()  # pylint: disable=protected-access\n\n"
+                     "  def LeaveTypeDeclUnit", "  def LeaveTypeDeclUnit")]},
     {"name": "twin-cleaners-assign-their-result", "rule": "R12.3", "file": SERIALIZE, "expect": "silent",
      "old": "  ast.Visit(ClearLookupCache())\n", "new": "  ast = ast.Visit(ClearLookupCache())\n"},
     {"name": "twin-clear-pointers-after-canonical", "rule": "R12.3", "expect": "silent",
